@@ -73,12 +73,18 @@ def comps_of(w, tv, nz):
     return ids
 
 
-def run(rep: Report, only_params: bool = False) -> None:
+def run(rep: Report, only_params: bool = False, only_variant=None) -> None:
     prog = rep.prog
     rel = prog.module("sym_metanet.engines.casadi").relpath
     fi = prog.function("sym_metanet.engines.casadi", "Engine.to_function")
     where = f"{rel}:{fi.node.lineno} Engine.to_function"
     rep.trusted += ["python ast", "CasADi API model in sma/compile.py", "graph model in sma/gworld.py"]
+    # the analysis worlds build elements from their slots: the constructors must store
+    # every argument, symbolic or not, in the slot the dynamics read
+    from .. import ctor as _ctor
+
+    if not only_params and not only_variant:
+        _ctor.check(rep, groups=("link", "vsl"))
     combos = []
     for st in ("SX", "MX"):
         for compact in (0, 1, 2):
@@ -98,6 +104,11 @@ def run(rep: Report, only_params: bool = False) -> None:
             for st in ("SX", "MX"):
                 for compact in (0, 1, 2):
                     combos.append((st, compact, compact == 1, False, False, variant))
+        for st in ("SX", "MX"):
+            for compact in (0, 2):
+                combos.append((st, compact, False, True, False, "long"))
+    if only_variant:
+        combos = [c for c in combos if c[5] == only_variant]
     n = 0
     for st, compact, params, clamp, same, variant in combos:
         n += 1
@@ -127,6 +138,25 @@ def run(rep: Report, only_params: bool = False) -> None:
             rep.check(not ev and same_dict, "declared-parameters-untouched", label + " more_out", where,
                       (ev[0].detail if ev else f"the caller's parameter dict now has keys {list(pd2)}"),
                       key=f"paramdict|c={min(max(compact, 0), 2)}")
+            # a step parameter (the sampling time) may be declared symbolic just like an element parameter
+            net3 = CP.build_network(prog, st, same_names=same, variant=variant)
+            CP.set_opaque_states(net3, clamp_init=clamp)
+            pd3 = {"T": TV(E.S("p.T"), 0, False), "rho_crit": TV(E.S("p.rho_crit"), 1, False)}
+            r3 = CP.to_function(prog, net3, compact=compact, more_out=True, parameters=pd3,
+                                other={"tau": TV(E.S("tau"), 0, False)})
+            if r3[0] == "raise":
+                rep.refuted("symbolic-step-parameter", label + " more_out, T declared", where,
+                            f"to_function raises {r3[1].exc}: {r3[1].msg}", key=f"symT|raise|c={min(max(compact, 0), 2)}")
+            else:
+                nz3 = M.make_normalizer(None)
+                try:
+                    ids3 = [CP.ident_of(x, nz3) for a in r3[2] for x in CP.flatten(net3.w, a, nz3)]
+                except (AnalysisError, E.ShapeError) as e:
+                    ids3 = None
+                has_in = ids3 is not None and any(c is not None and c[0] == "T" and c[1] == "p" for c in ids3)
+                rep.check(has_in, "symbolic-step-parameter", label + " more_out, T declared", where,
+                          "the declared sampling time is not an argument of the function",
+                          key=f"symT|c={min(max(compact, 0), 2)}")
         if r[0] == "raise":
             rep.refuted("compiles", label, where, f"to_function raises {r[1].exc}: {r[1].msg}",
                         key=f"raise|{r[1].exc}|c={min(max(compact, 0), 2)}")
@@ -194,7 +224,7 @@ def run(rep: Report, only_params: bool = False) -> None:
         rep.check(not free, "no-free-symbols", label, where,
                   "casadi.Function is built with allow_free: symbols that are not arguments stay free",
                   key="allow_free")
-    if not only_params:
+    if not only_params and not only_variant:
         from .common import require_no_errors, wire_results
 
         cks = [ck for ck in wire_results(rep, "flags", impls=("casadi",)) if ck.cfg.history or not ck.cfg.flags]
@@ -205,8 +235,42 @@ def run(rep: Report, only_params: bool = False) -> None:
                 rep.check(not ev, "arguments-are-this-networks-variables", ck.cfg.label(),
                           ev[0][1] if ev else "engine.var", ev[0][2] if ev else "",
                           key=f"varfresh|{ev[0][0] if ev else ''}")
+        # the order of an element's variables (hence of the function's arguments and results)
+        # does not depend on how the caller's initial-condition dictionaries are ordered, and
+        # the next states are kept in the order of the states
+        from dataclasses import replace as _replace
+
+        base = wire_results(rep, "base")
+        n_ord = 0
+        if require_no_errors(rep, base):
+            by = {ck.cfg: ck for ck in base}
+            for ck in base:
+                if ck.cfg.init not in ("user", "partial") or ck.cfg.impl != "casadi":
+                    continue
+                ref = by.get(_replace(ck.cfg, init="engine"))
+                if ref is None:
+                    continue
+                n_ord += 1
+                bad = ""
+                for p in ck.paths:
+                    q = next((x for x in ref.paths if x.path == p.path), None)
+                    if q is None or p.raised or q.raised:
+                        continue
+                    for role in p.states:
+                        for g in ("states", "actions", "disturbances"):
+                            a, b = p.states[role].get(g), q.states.get(role, {}).get(g)
+                            if isinstance(a, dict) and isinstance(b, dict) and list(a) != list(b):
+                                bad = (f"{g} of {role} are ordered {list(a)} when the caller supplies "
+                                       f"{'only v / d' if ck.cfg.init == 'partial' else 'them as {v, rho} / {q, v_ctrl, r, d, w}'} but {list(b)} when the engine creates them")
+                        a = p.states[role].get("states")
+                        o = p.outputs.get(role)
+                        if isinstance(a, dict) and isinstance(o, dict) and list(a) != list(o):
+                            bad = f"states of {role} are ordered {list(a)} but its next states {list(o)}"
+                rep.check(not bad, "variable-order-fixed", ck.cfg.label(), "ElementWithVars.init_vars", bad,
+                          key=f"varorder|{bad[:50]}")
+            rep.floor("configurations with caller-supplied variables compared for order", n_ord, 5)
     rep.analysed["option_combinations"] = n
-    rep.floor("option combinations", n, 6 if only_params else 30)
+    rep.floor("option combinations", n, 4 if only_variant else 6 if only_params else 30)
 
 
 def _short(seq, n=14):
